@@ -923,7 +923,9 @@ impl Interpreter {
             self.env = module_env.cheap_clone();
             (Some(saved), Some(module_env))
         } else {
-            (None, None)
+            // Also remembered without a module scope: a run that fails inside a block or a call
+            // leaves that scope current (see prepare)
+            (Some(self.env.cheap_clone()), None)
         };
 
         // All imports satisfied - set up import bindings first, then compile the program to
@@ -952,9 +954,10 @@ impl Interpreter {
         let result = self.run_vm_to_completion(vm);
 
         // Restore environment and finalize exports if we used a module environment
-        if let (Some(saved), Some(module_env)) = (saved_env, module_env) {
+        if let Some(saved) = saved_env {
             self.env = saved;
-
+        }
+        if let Some(module_env) = module_env {
             // If execution completed successfully, store the main module exports
             if let Ok(StepResult::Complete(_)) = &result
                 && let Some(ref path) = module_path
@@ -3341,7 +3344,13 @@ impl Interpreter {
         let vm_guard = self.heap.create_guard();
         let mut vm = BytecodeVM::with_guard(chunk, this_value, vm_guard);
 
-        match vm.run(self) {
+        // A run that ends inside a block scope or a call (an uncaught error, a refused
+        // suspension) leaves that scope current: put the caller's environment back
+        let saved_env = self.env.cheap_clone();
+        let result = vm.run(self);
+        self.env = saved_env;
+
+        match result {
             VmResult::Complete(guarded) => Ok(guarded),
             VmResult::Error(err) => Err(err),
             VmResult::Suspend(_) | VmResult::SuspendForOrder(_) => Err(JsError::internal_error(
